@@ -96,6 +96,11 @@ class R:
             extra = f", resp={h['resp_explicit']}"
         lines = [h.get("msg_attr_text") or f"#[sv::msg({h['kind']}{extra})]"]
         above = h.get("sv_attrs_above", 0)
+        if self.order.get("attr_pos") == "flip" and h.get("sv_attrs"):
+            # the other position of the handler's sv::attr lines relative to its sv::msg line (C14)
+            above = 0 if above else len(h["sv_attrs"])
+        elif self.order.get("attr_pos") == "reverse" and h.get("sv_attrs"):
+            h = dict(h, sv_attrs=list(reversed(h["sv_attrs"])))
         for i, at in enumerate(h.get("sv_attrs", [])):
             if i < above:
                 lines.insert(i, f"#[sv::attr({at})]")
